@@ -1,2 +1,66 @@
-From GB Require Import Bucket BucketOpen Gc.
-Example C17_placeholder : True. Proof. exact I. Qed.
+(* C17 -- GC only touches eligible files and runs at most once per bucket.
+   Property theorems only; proofs live in proofs/GcRangeProofs.v, GcTouch.v, GcReqProofs.v. *)
+From Coq Require Import NArith ZArith List Bool String.
+From GB Require Import Consts Words Hash Compress Bucket BucketOpen Gc GcReq CheckL2 GcRangeProofs GcTouch GcReqProofs.
+Import ListNotations.
+Open Scope N_scope.
+
+(* (1) Range resolution, for ALL (start, end, days) including negatives and out-of-range ids and ALL bucket
+   states: an accepted range [x, y] starts and ends at non-empty files, lies strictly below the head (the
+   file receiving appends is never inside it), and the file that decided the end -- the first file above y
+   holding data -- has a first record older than the age limit (no_gc_days when days < 0). *)
+Theorem C17_range_sound : forall cf b s e days now x y,
+  gc_check_range cf b s e days now = RangeOK x y ->
+  (x <= y)%nat /\ (y < b_head b)%nat /\ 0 < k_size (chunk_at b x) /\ 0 < k_size (chunk_at b y) /\
+  exists next ts, (y < next <= b_head b)%nat /\
+    (forall c, (y < c < next)%nat -> k_size (chunk_at b c) = 0) /\
+    first_ts (chunk_at b next) = Some ts /\
+    ((if (days <? 0)%Z then c_nogcdays cf else days) * 86400 < now - Z.of_N ts)%Z.
+Proof. exact range_sound. Qed.
+Print Assumptions C17_range_sound.
+
+(* (2) Pretend mode (range resolution only) changes nothing: the model step is the identity on the bucket;
+   the correspondence check compares the directory inventory after it. *)
+Theorem C17_pretend_changes_nothing : forall lc b s e days, fst (l2_step lc b (OGcRange s e days)) = Some b.
+Proof. intros; reflexivity. Qed.
+Print Assumptions C17_pretend_changes_nothing.
+
+(* (3) Files touched by a pass over [begin, end], for ALL bucket states, ranges and merge flags: the head
+   index is unchanged and every data chunk outside [dst0, max end dst_final] is bit-for-bit what it was
+   (contents, size, write buffer), where dst0 <= begin is the destination picked up front.
+   PARTIAL with respect to the property text: the text allows one earlier file; the code (and this
+   theorem) allow the run dst0 .. begin-1 of earlier files, which are all empty above dst0 by the choice
+   of dst0 -- GC moves on to them when dst0 fills up. *)
+Theorem C17_touches_only_partial : forall cf hf b begin_ end_ merge,
+  let b1 := before_bucket cf b merge in
+  let dst0 := pick_dst cf b1 begin_ begin_ in
+  let st := fold_left (gc_file cf hf begin_) (seq begin_ (S end_ - begin_)) (mkGC (begin_gc_writing b1 dst0 begin_) dst0 gc0) in
+  (dst0 <= begin_)%nat /\ (dst0 <= gc_dst st)%nat /\
+  untouched (fun c => (dst0 <= c <= Nat.max end_ (gc_dst st))%nat) b (fst (gc_pass cf hf b begin_ end_ merge)).
+Proof. exact gc_pass_touches_only. Qed.
+Print Assumptions C17_touches_only_partial.
+
+(* (4) At most one pass per bucket, for ALL numbers of requests, ALL target buckets and ALL schedules of the
+   request protocol (check under read lock / reserve / pass start / pass end as separate atomic steps). *)
+Theorem C17_one_pass_per_bucket : forall bks sched bk,
+  (count (running_on bk) (g_rq (grun true (ginit bks) sched)) <= 1)%nat.
+Proof. exact one_pass_per_bucket. Qed.
+Print Assumptions C17_one_pass_per_bucket.
+
+(* the source carries the reservation the theorem is about (flag regenerated from store/hstore.go on every run) *)
+Theorem C17_source_reserves : gc_request_reserves = true.
+Proof. reflexivity. Qed.
+
+(* without it the statement is false: the schedule below runs two passes on bucket 0 (finding F12, repaired) *)
+Theorem C17_unreserved_refuted :
+  count (running_on 0) (g_rq (grun false (ginit [0; 0]%nat) [0; 1; 0; 1; 0; 1]%nat)) = 2%nat.
+Proof. exact two_passes_without_reservation. Qed.
+Print Assumptions C17_unreserved_refuted.
+
+(* non-vacuity of (1): a store with three files, the middle one emptied, accepts [0, 0] *)
+Example C17_range_nonvacuous :
+  let d := mkD (unhex "6b") (unhex "76") 0 1 100 1 in
+  let k := mkChunk true [(0, d)] 256 [] 256 256 false in
+  let b := set_head (set_chunks bucket0 [k; chunk0; k; chunk0]) 3 in
+  gc_check_range (mkCfg 1024 512 4 false 3 false 0) b (-1) (-1) (-1) 100000 = RangeOK 0 0.
+Proof. vm_compute. reflexivity. Qed.
